@@ -14,7 +14,7 @@ props="$*"
 mkdir -p $R
 if [ ! -d $R/repo ]; then git -C /repo worktree add --detach $R/repo HEAD -q || exit 2; fi
 git -C $R/repo checkout -q --detach $(git -C /repo rev-parse HEAD) 2>/dev/null; git -C $R/repo checkout -q -- . ; git -C $R/repo clean -fdq
-rsync -a --delete --exclude evidence/replays --exclude .git $V/ $R/verif/
+rsync -a --delete --exclude evidence/replays --exclude .git ${RIG_SRC:-$V}/ $R/verif/
 git -C $R/repo apply "$dir/patch.diff" || exit 2
 out="{"
 for p in $props; do
